@@ -528,6 +528,36 @@ def parse_errors_propagate(ctx, rule):
 MUTATORS = ('sort', 'append', 'remove', 'insert', 'extend', 'pop', 'clear', 'reverse', 'update', 'add', 'discard', 'setdefault', 'popitem')
 
 
+CLOCKS = ('time.time', 'time.monotonic', 'time.perf_counter', 'time.time_ns', 'time.monotonic_ns', 'time.perf_counter_ns', 'time.process_time',
+          'time.clock_gettime', 'datetime.datetime.now', 'datetime.datetime.utcnow', 'datetime.now', 'datetime.utcnow')
+
+
+def one_clock(ctx, rule):
+    """the timers of the daemon (retransmission, dead peer detection, rekey, the windows of the main loop) store deadlines and compare them
+    with `now`: all readings come from ONE clock.  A deadline taken from another clock (seconds since boot against seconds since 1970)
+    is always in the past or never reached - every pass of the timer sweep then retransmits, or none ever does."""
+    seen = {}
+    for fi in ctx.prog.all_functions():
+        if fi.module.name not in ('ikesa', 'ikesacontroller') or not isinstance(fi.node, ast.FunctionDef):
+            continue
+        for n in walk_no_nested(fi.node):
+            if isinstance(n, ast.Call):
+                r = ctx.res.resolve_call(n, fi, count=False)
+                if r.kind == 'lib' and r.lib in CLOCKS:
+                    seen.setdefault(r.lib, []).append((fi, n))
+    ctx.floor('%s clock readings in ikesa / ikesacontroller' % rule, sum(len(v) for v in seen.values()), 8, rule=rule)
+    if len(seen) > 1:
+        major = max(seen, key=lambda k: len(seen[k]))
+        for lib, sites in sorted(seen.items()):
+            if lib == major:
+                continue
+            for fi, n in sites:
+                ctx.bad(rule, (rule, 'mixed-clocks', fi.qual, lib), '%s reads %s while the other %d timer readings use %s: deadlines and '
+                        'comparisons on different clocks' % (fi.qual, lib, len(seen[major]), major), ctx.site(fi, n))
+    else:
+        ctx.ok(rule, 'every timer reading (%d sites) uses the one clock %s' % (sum(len(v) for v in seen.values()), ', '.join(seen)))
+
+
 def loaders_read_only(ctx, rule):
     """the configuration loaders read the mapping they are given and never write to it: the mapping (and every nested mapping / list
     reached from it - a `protect` entry, an auth section) belongs to the caller, and one object may appear under several connections
